@@ -633,7 +633,8 @@ class Check:
             if "dropped-scenarios" in k and self.n_scen and v * 5 > self.n_scen:
                 print("WARNING: %s: %d of %d scenarios were dropped by the generator (%s)" % (self.id, v, self.n_scen, k))
                 ev["coverage"]["generator_warning"] = "%s=%d of %d scenarios" % (k, v, self.n_scen)
-        evdir = os.path.join(VERIF, "evidence") if REPO == "/repo" else os.path.join(VERIF, "out", "scratch-evidence")
+        # evidence/ is only written by a full check of /repo itself: replays and scratch-tree runs go to out/
+        evdir = os.path.join(VERIF, "evidence") if REPO == "/repo" and not getattr(self, "is_replay", False) else os.path.join(VERIF, "out", "scratch-evidence")
         os.makedirs(evdir, exist_ok=True)
         with open(os.path.join(evdir, self.id + ".json"), "w") as f:
             json.dump(ev, f, indent=1, sort_keys=True)
@@ -655,6 +656,7 @@ class Check:
         if not any(l.split() and l.split()[0] == "cfg" for l in lines):
             print("replay file names an obligation, re-running the whole check:\n" + "\n".join(l for l in lines if l.startswith("#")))
             return self.main()
+        self.is_replay = True
         if not (self.build_harness() and self.build_lean()):
             self.finish()
         scens = split_scenarios(lines, "replay:" + path)
